@@ -6,6 +6,7 @@ A case:  {"op": "test"|"estim"|"bet"|"conv", "init": {...}, "x": ["p/q", ...], "
 `init` mirrors the constructor call: test / estim / bet names (None = constructor default), u, N
 (int or None = np.inf), t, ro (random_order), kw (keyword attributes), u_now (a later `test.u = u`).
 """
+import hashlib
 import math
 import sys
 from fractions import Fraction as F
@@ -14,7 +15,7 @@ import numpy as np
 if hasattr(sys, "set_int_max_str_digits"):
     sys.set_int_max_str_digits(0)        # exact products of 40 factors with 30-digit square roots exceed 4300 digits
 
-from ..core import fr, to_frac, num_close, nums_close, impl_call
+from ..core import fr, to_frac, num_close, nums_close, impl_call, Rng
 
 NAME = "nm"
 RULE = ("configs drawn from test x estimator/bet x N in {n, n+1, 2n, 10n, inf} x u x t x documented parameter "
@@ -27,7 +28,12 @@ RULE = ("configs drawn from test x estimator/bet x N in {n, n+1, 2n, 10n, inf} x
         "c in [2^-30,10], d in [2^-20,10^6], f in [0,100], minsd in [2^-40,10] and tiny (1e-160, 1e-170, 1e-300, the "
         "smallest normal double; f = 0 or f/minsd < 1e298) on samples starting with a run of identical draws, "
         "aGRAPA c_0 in [0,1], c_max in [c_0,1], growth in [0,10^6], fixed bets in [0,1/u], aGRAPA initial bets also far "
-        "above 1/t and negative (5/2 .. 10^6, -1/2, -3); non-trivial = "
+        "above 1/t and negative (5/2 .. 10^6, -1/2, -3); additional streams (n/10 more cases, own generator): integer "
+        "samples as numpy arrays of narrow / unsigned dtypes (int8 .. uint64) whose running total passes the dtype's "
+        "range (short samples of large integers with u = 64 .. 2*10^9, long 0/1 samples of 140-330 draws); fixed bets "
+        "above 1/mu_j with every factor positive (1/u < lam < 1/t without replacement, or u raised after construction); "
+        "k draws of u that make the total hit N*t exactly (k*u = 16 .. 512), then 0s (0/0), then a non-dyadic value, "
+        "then more; upper bounds below 1 (3/4, 7/8, 5/8, 1/2, 2/3); non-trivial = "
         "status ok, length >= 2 and the history is not constantly 1; distinct = distinct canonical input")
 EXHAUSTIVE = {"quick": False, "thorough": False}
 
@@ -64,7 +70,10 @@ def make_nm(init):
 def xs(case):
     vals = [F(v) for v in case["x"]]
     if case.get("int_dtype") and vals and all(v.denominator == 1 for v in vals):
-        # the sample as an integer array / list of ints (0/1 polling data are often stored that way)
+        # the sample as an integer array / list of ints (0/1 polling data are often stored that way); a string names
+        # the array's integer dtype (compact storage: int8, int16, ...; the values fit, their running total need not)
+        if isinstance(case["int_dtype"], str):
+            return np.array([int(v) for v in vals], dtype=np.dtype(case["int_dtype"]))
         return np.array([int(v) for v in vals])
     return np.array([float(v) for v in vals], dtype=float)
 
@@ -418,12 +427,12 @@ def gen_kw(rng, test, estim, bet, u, t):
     return kw
 
 
-def gen_case(rng, tier, op="test", force_test=None):
+def gen_case(rng, tier, op="test", force_test=None, us=None):
     test = force_test or rng.choice(TESTS + ["alpha_mart", "betting_mart"])
     estim = rng.choice(ESTIMS) if test == "alpha_mart" else None
     bet = rng.choice(BETS) if test == "betting_mart" else None
-    u = rng.choice([F(1), F(1), F(3, 2), F(2), F(17, 16), 1 + F(1, 1024), F(5, 4)])
-    if estim == "optimal_comparison":
+    u = rng.choice(us or [F(1), F(1), F(3, 2), F(2), F(17, 16), 1 + F(1, 1024), F(5, 4)])
+    if estim == "optimal_comparison" and us is None:
         u = rng.choice([F(17, 16), 1 + F(1, 1024), F(5, 4), F(3, 2), F(2), 1 + F(1, 2 ** 20), F(1)])
     t = rng.choice([F(1, 2)] * 5 + [F(1, 4), F(3, 8), F(3, 4)])
     if t >= u:
@@ -707,7 +716,178 @@ def gen_c10_late_zero(rng, tier):
     return {"op": "test", "init": init, "x": [S(v) for v in x], "stream": "c10:late-zero"}
 
 
+# ---------------------------------------------------------------------------------------------
+# additional streams (generated after the main stream, from a generator of their own: see gen)
+
+LOW_U = [F(3, 4), F(3, 4), F(7, 8), F(5, 8), F(1, 2), F(2, 3)]
+NARROW_SIGNED = ["int8", "int8", "int16", "int32"]
+NARROW_UNSIGNED = ["uint8", "uint8", "uint16", "uint32", "uint64"]
+NARROW_MAX = {"int8": 127, "int16": 32767, "int32": 2 ** 31 - 1, "uint8": 255, "uint16": 65535, "uint32": 2 ** 32 - 1,
+              "uint64": 2 ** 64 - 1}
+
+
+def _cfg(rng, tier, test=None, finite=True):
+    """test / estimator / bet for the additional streams"""
+    test = test or rng.choice(["alpha_mart", "alpha_mart", "betting_mart", "betting_mart", "kaplan_kolmogorov", "wald_sprt"])
+    estim = rng.choice(ESTIMS) if test == "alpha_mart" else None
+    bet = rng.choice(BETS) if test == "betting_mart" else None
+    return test, estim, bet
+
+
+def _fixed_bet_for_u(rng, kw, test, bet, u):
+    """the default fixed bet, 1/2, is a bet for u <= 2 (documented range [0, 1/u]): with a larger upper bound set one"""
+    if test == "betting_mart" and bet in (None, "fixed_bet") and "lam" not in kw and u > 2:
+        kw["lam"] = rng.choice([F(1, 4), F(1, 2), F(3, 4), F(1)]) / u
+
+
+def gen_narrow_int(rng, tier, dtypes):
+    """an integer-valued sample handed over as a numpy array of a NARROW integer dtype (compact storage of 0/1 polling
+    data or of integer scores): every value fits the dtype, the running total of the sample does not (it passes
+    127 / 255 / 32767 / ...).  Either a short sample of large integers in [0,u] (u = 64 .. 30000), or a long 0/1 (0/1/2)
+    sample.  The result must be what the same values give as floats (the model works on the values)."""
+    dt = rng.choice(dtypes)
+    top = NARROW_MAX[dt]
+    test, estim, bet = _cfg(rng, tier, test=rng.choice(TESTS + ["alpha_mart", "betting_mart"]))
+    long_ok = dt in ("int8", "uint8")
+    if long_ok and rng.chance(0.3):
+        # long 0/1 sample (0/1/2 with u = 2): n draws, most of them 1, total above the dtype's range
+        u = rng.choice([F(1), F(1), F(1), F(2)])
+        need = top + rng.randint(2, 30)
+        rate = rng.choice([F(6, 10), F(7, 10), F(9, 10)])
+        n = int(need / (rate * u)) + rng.randint(5, 25)
+        x = [u if rng.random() < float(rate) else rng.choice([F(0), F(0), u - 1]) for _ in range(n)]
+        i = 0
+        while sum(x) <= top + 1 and i < n:
+            x[i] = u
+            i += 1
+        t = rng.choice([F(1, 2), F(1, 2), F(1, 4)]) * u
+        N = rng.choice([n, n + 3, 2 * n, 2 * n, 4 * n, 10 * n, None])
+        name = "long"
+    else:
+        if dt in ("int8", "uint8"):
+            u = F(rng.choice([64, 100, 100, 127] if dt == "int8" else [100, 200, 255]))
+        elif dt in ("int16", "uint16"):
+            u = F(rng.choice([10000, 20000, 30000]))
+        else:
+            u = F(rng.choice([10 ** 9, 2 ** 30, 2 * 10 ** 9 if dt != "int32" else 2 ** 30]))
+        nmax = 12 if tier == "quick" else 40
+        n = rng.choice([3, 4, 5, 6, 8, 10, nmax])
+        x = [F(int(rng.choice([0, 0, u, u, u, u / 2, u / 2, u * 3 / 4, rng.randint(0, int(u))]))) for _ in range(n)]
+        if sum(x) <= top:
+            x = [u] * n
+        t = rng.choice([u / 2, u / 2, u / 4, u * 3 / 8, u * 3 / 4])
+        N = rng.choice([n, n + 1, n + 2, 2 * n, 10 * n, 100 * n, None])
+        name = "big"
+    if test in ("kaplan_markov", "kaplan_wald"):
+        N = None
+    elif test == "kaplan_kolmogorov" and N is None:
+        N = 2 * n
+    kw = gen_kw(rng, test, estim, bet, u, t)
+    _fixed_bet_for_u(rng, kw, test, bet, u)
+    init = {"test": test, "estim": estim, "bet": bet, "u": S(u), "N": N, "t": S(t), "ro": rng.chance(0.8),
+            "kw": {k: S(v) for k, v in kw.items()}, "u_now": None}
+    return {"op": "test", "init": init, "x": [S(v) for v in x], "stream": f"dtype:{dt}:{name}", "int_dtype": dt}
+
+
+def gen_big_fixed_bet(rng, tier):
+    """betting_mart with a FIXED bet that is larger than 1/mu_j at some draws while every factor 1 + lam (x_j - mu_j)
+    stays positive (C12 is the definition of the statistic for every bet the shipped rule produces; the range
+    lam <= 1/u belongs to C13 / C01, whose oracles skip these cases).  Two ways:
+      * sampling without replacement, 1/u < lam < 1/t, early draws below the null mean (each just large enough to keep
+        its factor positive) so that mu_j climbs past 1/lam, then large draws so that T_j > 1 and the history shows it;
+      * lam = 1/u at construction and `test.u` RAISED afterwards (as the audit does for comparison audits), draws
+        above the old bound."""
+    for _ in range(30):
+        nmax = 12 if tier == "quick" else 24
+        n = rng.choice([4, 5, 6, 6, 8, 10, nmax])
+        N = rng.choice([n, n + 1, n + 2, n + 2, n + 4, 2 * n])
+        u_now = None
+        if rng.chance(0.3):
+            u0 = rng.choice([F(1), F(1), F(5, 4)])
+            u = u0 * rng.choice([F(3, 2), F(2), F(5, 4)])
+            u_now = u
+            t = rng.choice([F(1, 2), F(1, 2), F(3, 8)]) * u0
+            lam = rng.choice([F(1), F(1), F(7, 8)]) / u0
+        else:
+            u0 = u = rng.choice([F(1), F(1), F(1), F(2), F(5, 4), F(3, 4)])
+            t = rng.choice([F(1, 2), F(1, 2), F(3, 8), F(1, 4)]) * u
+            lam = rng.choice([F(3, 4), F(7, 8), F(15, 16), F(19, 20), F(9, 10)]) / t
+            if lam <= 1 / u:
+                continue
+        k1 = rng.randint(1, max(1, n - 2))
+        grid = [u * F(k, 8) for k in range(9)] + [u * F(k, 10) for k in (3, 4, 7)]
+        x, s_, T, seen, shown = [], F(0), F(1), False, False
+        for j in range(1, n + 1):
+            m = (N * t - s_) / (N - j + 1)
+            if not (0 < m < u * F(15, 16)):
+                break
+            ok = sorted(v for v in grid if 1 + lam * (v - m) >= F(1, 16))
+            if not ok:
+                break
+            v = rng.choice(ok[:2]) if j <= k1 else rng.choice([ok[-1], ok[-1], rng.choice(ok)])
+            if lam * m > 1 and v != m:
+                seen = True
+            T *= 1 + lam * (v - m)
+            if seen and T > 1:
+                shown = True
+            x.append(v)
+            s_ += v
+        if len(x) >= 2 and seen and shown:
+            init = {"test": "betting_mart", "estim": None, "bet": rng.choice(["fixed_bet", "fixed_bet", None]),
+                    "u": S(u0), "N": N, "t": S(t), "ro": rng.chance(0.8), "kw": {"lam": S(lam)},
+                    "u_now": S(u_now) if u_now is not None else None}
+            return {"op": "test", "init": init, "x": [S(v) for v in x], "stream": "c12:bet>1/mu"}
+    return None
+
+
+def gen_zero_over_zero(rng, tier):
+    """sampling without replacement, null mean t = C/N with C = k*u >= 16 a power of two times u: k draws equal to u make
+    the running total hit N*t EXACTLY (the null mean of the remaining N - k items is exactly 0), then one or two 0s
+    (ALPHA's factor is 0/0 there), then a value that is not a binary fraction, then a few more draws -- all within the
+    population.  From the draw after the 0/0 on, the history is decided by the conventions for mu_j = 0 / mu_j < 0 /
+    'total exceeds N t' alone: it has to be 1 or 0, never NaN."""
+    for _ in range(50):
+        u = rng.choice([F(1), F(1), F(1), F(2), F(4), F(8)])
+        k = rng.choice([8, 16, 16, 32, 64] if tier == "quick" else [8, 16, 16, 32, 64, 128])
+        C = k * u
+        if C < 16:
+            continue
+        r = rng.randint(3, 8)
+        N = k + r
+        t = C / N
+        if not (float(N) * float(t) == float(C)):
+            continue                     # the code forms N*t in floats: keep the configurations where that is exactly C
+        test, estim, bet = _cfg(rng, tier, test=rng.choice(["alpha_mart"] * 4 + ["betting_mart", "kaplan_kolmogorov", "wald_sprt"]))
+        z = rng.randint(1, min(2, r - 2))
+        odd = lambda: u * F(rng.randint(1, 9), rng.choice([3, 5, 7, 9, 10, 11, 13]))
+        v = min(odd(), u)
+        rest = r - z - 1
+        tail = [rng.choice([F(0), F(0), min(odd(), u), u / 2, u]) for _ in range(rng.randint(1, rest))]
+        x = [u] * k + [F(0)] * z + [v] + tail
+        kw = gen_kw(rng, test, estim, bet, u, t)
+        _fixed_bet_for_u(rng, kw, test, bet, u)
+        init = {"test": test, "estim": estim, "bet": bet, "u": S(u), "N": N, "t": S(t), "ro": rng.chance(0.6),
+                "kw": {a: S(b) for a, b in kw.items()}, "u_now": None}
+        return {"op": "test", "init": init, "x": [S(w) for w in x], "stream": "c11:0/0-then-odd"}
+    return None
+
+
+def gen_extra(rng, tier):
+    r = rng.random()
+    if r < 0.30:
+        return gen_narrow_int(rng, tier, NARROW_SIGNED + NARROW_UNSIGNED)
+    if r < 0.55:
+        return gen_big_fixed_bet(rng, tier)
+    if r < 0.85:
+        return gen_zero_over_zero(rng, tier)
+    op = rng.choice(["test", "test", "test", "estim", "bet"])
+    return gen_case(rng, tier, op, force_test={"estim": "alpha_mart", "bet": "betting_mart"}.get(op), us=LOW_U)
+
+
 def gen(rng, n, tier):
+    # the additional streams draw from a generator of their own, derived from (not drawn from) the run's generator,
+    # and come after the main stream: the main stream is exactly what it was before they existed
+    sub = Rng(int(hashlib.sha1(repr(rng.getstate()).encode()).hexdigest()[:15], 16))
     k = 0
     while k < n:
         r = rng.random()
@@ -734,6 +914,12 @@ def gen(rng, n, tier):
             c["mu"] = [v if F(v) <= u else S(u) for v in c["mu"]]
             yield c
         k += 1
+    k = 0
+    while k < max(8, n // 10):
+        c = gen_extra(sub, tier)
+        if c is not None:
+            yield c
+            k += 1
 
 
 # ---------------------------------------------------------------------------------------------
@@ -782,6 +968,14 @@ def _overflow_before(case, h, i):
 def oracle_c11(case, ir):
     if not valid_for_wellformed(case):
         return None
+    init_ = case["init"]
+    if init_.get("test") == "betting_mart" and init_.get("bet") in (None, "fixed_bet"):
+        # documented range of a FIXED bet: [0, 1/u] with u the test's CURRENT upper bound (C13.BetGuard, the guard of
+        # wellformed_run_betting); `test.u` raised after construction can leave lam = 1/u_old above it
+        u_ = F(init_["u_now"] if init_.get("u_now") is not None else init_["u"])
+        lam_ = F(init_["kw"]["lam"]) if init_["kw"].get("lam") is not None else F(1, 2)
+        if not (0 <= lam_ <= 1 / u_):
+            return None
     if ir.get("st") != "ok":
         if ir.get("err") == "ZeroDivisionError" and case["init"].get("estim") == "optimal_comparison" \
                 and F(case["init"]["u_now"] or case["init"]["u"]) == 1:
@@ -959,17 +1153,24 @@ def oracle_c13(case, ir):
     est = init.get("estim") or "fixed_alternative_mean"
 
     def estim_range(vals):
-        """the estimates `vals` (one per observation) lie in [0,u] (u = the test's current upper bound) wherever the
-        null mean is in (0,u]; shrink_trunc is moreover strictly above the null mean wherever that is below u"""
+        """the estimates `vals` (one per observation) never exceed u (u = the test's current upper bound), and lie in
+        [0,u] wherever the null mean is positive; shrink_trunc is moreover strictly above the null mean wherever that
+        is below u"""
         if est in ("fixed_alternative_mean", "shrink_trunc") and "eta" in kw and not (t < kw["eta"] < u):
             return None
         if est == "shrink_trunc" and any(kw.get(k, F(1)) <= 0 for k in ("c", "d", "minsd")):
             return None
         for j, (e, m) in enumerate(zip(vals, mu)):
-            if not (0 < m <= u):
+            # the cap at u is unconditional: every shipped estimator ends in a truncation at u (or u(1-eps)), whatever
+            # the sample -- also once the null mean itself has left [0,u] (the alternative, even the null, "has become
+            # impossible": a long run of small values in a small population).  Theorems fixed_alt_le_u,
+            # shrink_trunc_range, optimal_comparison_range.  The floor at 0 needs a positive null mean (estim_range).
+            if e > float(u) * (1 + 1e-15) + tol:
+                return {"what": f"{est}: eta_{j + 1} = {e!r} exceeds the upper bound u = {float(u)} (null mean there: {float(m)})"}
+            if not (0 < m):
                 continue
-            if math.isnan(e) or e < -tol or e > float(u) * (1 + 1e-15) + tol:
-                return {"what": f"{est}: eta_{j + 1} = {e!r} outside [0, u={float(u)}] although mu = {float(m)} in (0,u]"}
+            if math.isnan(e) or e < -tol:
+                return {"what": f"{est}: eta_{j + 1} = {e!r} outside [0, u={float(u)}] although mu = {float(m)} > 0"}
             if est == "shrink_trunc" and float(m) < float(u) * (1 - 2.3e-16) and not (e > float(m)):
                 return {"what": f"shrink_trunc: eta_{j + 1} = {e!r} is not above the null mean {float(m)} < u"}
         return None
